@@ -39,6 +39,11 @@ type Peer struct {
 	Chunk     int // delivery chunking mode (netsim.ChunkLikeLink)
 	Sent      []SentSeg
 	Cur       int // index into the tap trace consumed so far
+	// SynAckPayload rides on the SYN-ACK of AcceptActive (legal, RFC 793 p. 30);
+	// SynAckTaken is how much of it the stack's handshake ACK acknowledged (a
+	// receiver may take it or leave it to the retransmission)
+	SynAckPayload []byte
+	SynAckTaken   int
 }
 
 // SentSeg records a segment the peer injected.
@@ -181,13 +186,16 @@ func (p *Peer) AcceptActive(o SynOpts, d time.Duration) bool {
 	oo := o
 	oo.TS = useTS
 	p.UseTS = false
-	p.Send(codec.TCPSeg{Seq: p.ISS, Ack: p.RcvNxt, Flags: codec.SYN | codec.ACK, Wnd: p.Wnd, Opts: oo.bytes(1, p.TSEcr)})
+	p.Send(codec.TCPSeg{Seq: p.ISS, Ack: p.RcvNxt, Flags: codec.SYN | codec.ACK, Wnd: p.Wnd, Opts: oo.bytes(1, p.TSEcr), Payload: p.SynAckPayload})
 	p.SndNxt = p.ISS + 1
 	p.UseTS = useTS
 	p.TSVal = 1
-	_, ok = p.NextWhere(d, func(k *codec.Packet) bool {
-		return k.Flags&codec.ACK != 0 && k.Flags&codec.SYN == 0 && k.Ack == p.ISS+1
+	f, ok = p.NextWhere(d, func(k *codec.Packet) bool {
+		return k.Flags&codec.ACK != 0 && k.Flags&codec.SYN == 0 && k.Ack-(p.ISS+1) <= uint32(len(p.SynAckPayload))
 	})
+	if ok {
+		p.SynAckTaken = int(f.Pkt.Ack - (p.ISS + 1))
+	}
 	return ok
 }
 
